@@ -289,6 +289,7 @@ pub fn run_flat(
         let mut g_eval = 0u64;
         let mut g_non = 0u64;
         let mut g_fail = 0usize;
+        let mut named_bad = 0usize;
         let mut handle_failure = |f: String, violations: &mut Vec<String>, known: &mut BTreeMap<String, (usize, String)>| {
             if std::env::var("VERIF_TRIAGE").is_ok() {
                 eprintln!("TRIAGE\t{}", f.chars().take(400).collect::<String>());
@@ -322,12 +323,24 @@ pub fn run_flat(
                             continue;
                         }
                     }
-                    // pin down: one index at a time, the worker names each input in the side file before evaluating it
+                    // pin down: one index at a time, the worker names each input in the side file before evaluating it.
+                    // Bounded: a single input gets at most 15 s, and once three hanging / killing inputs of a group have
+                    // been named the remaining bad chunks are reported as chunks (a change that makes a whole class of
+                    // inputs hang must not turn the check into an hours-long run).
                     let (s0, e0) = (case["start"].as_u64().unwrap(), case["end"].as_u64().unwrap());
+                    if named_bad >= 3 {
+                        g_fail += 1;
+                        let kind = if matches!(r, CaseRes::Hung) { "HANG (watchdog)" } else { "PROCESS DEATH" };
+                        handle_failure(format!("[{}] {kind} somewhere in inputs [{s0}, {e0}) (not pinned down: three bad inputs of this group are already named)", g.name), &mut violations, &mut known);
+                        continue;
+                    }
                     for idx in s0..e0 {
+                        if named_bad >= 3 {
+                            break;
+                        }
                         let _ = std::fs::remove_file(&side);
                         let c1 = json!({"group": g.name, "start": idx, "end": idx + 1, "single": true, "side": side.to_string_lossy()});
-                        let r1 = run_cases(engine, &params, &[c1], timeout_s);
+                        let r1 = run_cases(engine, &params, &[c1], timeout_s.min(15));
                         match &r1[0] {
                             CaseRes::Done(v) => {
                                 let rep: FlatChunkReport = serde_json::from_value(v.clone()).unwrap_or_default();
@@ -347,6 +360,7 @@ pub fn run_flat(
                                 };
                                 g_fail += 1;
                                 g_eval += 1;
+                                named_bad += 1;
                                 handle_failure(format!("[{}] {kind} on: {what}", g.name), &mut violations, &mut known);
                             }
                         }
